@@ -277,6 +277,12 @@ pub open spec fn items_from(b: Seq<u8>, c: Seq<Chrom>, key: int) -> Seq<u8>
 pub open spec fn fmt_chrom_tree_from(b: Seq<u8>, c: Seq<Chrom>) -> Seq<u8> {
     items_from(put_node_header(put_tree_header(b, c.len() as int, max_key(c)), c.len() as int), c, max_key(c))
 }
+/// any ordering of the table other than the exact `sort_by_key(|v| *v.1)` (which the precondition stands for):
+/// unknown result, so an edit of the sort key is judged by the layout obligations
+#[verifier::external_body]
+pub fn havoc_order(c: &mut Vec<Chrom>)
+    ensures final(c)@.len() == old(c)@.len(),
+{ unimplemented!() }
 /// ids strictly ascending (what `chroms.sort_by_key(|v| *v.1)` leaves, ids being distinct): ASSUMED of the input
 pub open spec fn sorted_by_id(c: Seq<Chrom>) -> bool {
     forall|a: int, b: int| 0 <= a < b < c.len() ==> (#[trigger] c[a]).1 < (#[trigger] c[b]).1
@@ -343,6 +349,8 @@ pub proof fn lemma_item_at(b: Seq<u8>, c: Seq<Chrom>, key: int, i: int)
 }
 
 // ---- verified helpers standing in for non-Verus std calls ----
+/// R12u64: std::cmp::min on u64 (not used by the pinned code; present so that an edit to `min` is judged, not rejected)
+pub fn min_u64(a: u64, b: u64) -> (r: u64) ensures r == if a <= b { a } else { b } { if a <= b { a } else { b } }
 /// R12u64: std::cmp::max on u64
 pub fn max_u64(a: u64, b: u64) -> (r: u64)
     ensures r == imax(a as int, b as int),
@@ -420,6 +428,7 @@ pub fn write_chrom_tree(file: &mut Sink, chroms: Vec<Chrom>,
         assert forall|i: int| 0 <= i < chroms@.len() implies (#[trigger] chroms@[i]).0@.len() <= key && 0 <= key by { lemma_max_key_bounds(chroms@, i); }
     }
 
+    let mut chroms = chroms;
     
     //println!("Used chroms {:?}", chroms);
 
